@@ -885,7 +885,7 @@ pub fn self_test() -> Vec<String> {
         let mut m = base();
         let a = net(&mut m);
         let b = net(&mut m);
-        port(&mut m, PortDir::Input, vec![a]);
+        port(&mut m, PortDir::Input, vec![a, b]); // b is never set: an input left at X
         let o1 = cell(&mut m, CellKind::And2, vec![a, b]);
         let o2 = cell(&mut m, CellKind::Or2, vec![a, b]);
         let o3 = cell(&mut m, CellKind::Xor2, vec![a, b]);
